@@ -707,7 +707,7 @@ var c01gens = map[string]func(t *rapid.T) c01case{
 func genInfoFork(t *rapid.T) (hotline.FlatFileInformationFork, hlref.InfoFork) {
 	k := genBytes(t, "info", 70)
 	name := genBytes(t, "name", genSize(t, "namelen", 1024))
-	comment := genBytes(t, "comment", genSize(t, "commentlen", 4096))
+	comment := genBytes(t, "comment", genSize(t, "commentlen", 65535)) // a comment has a 2-byte length: with a long name the fork exceeds 65535 bytes
 	var o hotline.FlatFileInformationFork
 	o.Platform, o.TypeSignature, o.CreatorSignature, o.Flags, o.PlatformFlags = arr4(k[0:4]), arr4(k[4:8]), arr4(k[8:12]), arr4(k[12:16]), arr4(k[16:20])
 	copy(o.RSVD[:], k[20:52])
